@@ -14,6 +14,7 @@ func init() {
 			ruleSpec(c, func(n string) bool { return strings.Contains(n, "JSON") })
 			c.Floor("S.spec", 2)
 			ruleJSONValueSpec(c)
+			ruleCountLoop(c)
 			ruleTightGuards(c, decodeBound(c.P), func(n string) bool { return strings.Contains(n, "JSON") })
 			c.Floor("X.tightguard", 8)
 			ruleRejects(c, decodeBound(c.P), func(n string) bool { return strings.Contains(n, "JSON") })
